@@ -184,6 +184,37 @@ func genEvalCase(r *rng, i int, mode string) (*evalCase, *hostEnv) {
 	}
 	names := []string{"r1", "42", "7x", "rule_b", "100"}
 	perm := r.perm(len(names))
+	if mode == "conc" && r.chance(1, 8) {
+		// the same conc block executed twice on one rule entity: first with a failing child, then,
+		// after another rule has repaired the data, with none — nothing of the first execution
+		// (an error message, a counter) may survive into the second
+		v := func(n string) *RE { return &RE{Op: "var", Sym: n} }
+		asg := func(t string, e *RE) *RS { return &RS{Op: "assign", Sym: "=", Tgt: v(t), E: e} }
+		g := &egen{r: r, locals: map[string]string{}}
+		blk := &RS{Op: "conc", Items: []*RS{asg("c0", mkBin("ar", "/", lit("int64", "7"), v("p_int32"))), asg("S.I64", lit("int64", "5"))}}
+		for k, n := 0, 1+r.intn(2); k < n; k++ {
+			g.noteN++
+			blk.Items = append(blk.Items, &RS{Op: "call", E: &RE{Op: "call", Kind: "func", Sym: "obsC", Args: []*RE{lit("int64", strconv.Itoa(g.noteN))}}})
+		}
+		if r.chance(1, 2) {
+			g.noteN++
+			blk.Items = append(blk.Items, &RS{Op: "call", E: &RE{Op: "call", Kind: "method", Sym: "S.Note", Args: []*RE{lit("int64", strconv.Itoa(g.noteN))}}})
+		}
+		bodies := []*RBlock{
+			{Stmts: []*RS{asg("p_int32", lit("int64", "0"))}},
+			{Stmts: []*RS{blk}, HasRet: true, Ret: v("c0")},
+			{Stmts: []*RS{asg("p_int32", lit("int64", "1"))}},
+		}
+		hdrs := []ruleHdr{{Name: names[perm[0]]}, {Name: names[perm[1]]}, {Name: names[perm[2]]}}
+		for k := range bodies {
+			w.rule(hdrs[k], bodies[k])
+		}
+		for _, k := range []int{0, 1, 2, 1} {
+			c.Rules = append(c.Rules, evalRule{Hdr: hdrs[k], Body: bodies[k]})
+		}
+		c.Text = w.sb.String()
+		return c, h
+	}
 	for k := 0; k < nrules; k++ {
 		g := &egen{r: r, locals: map[string]string{}}
 		switch mode {
